@@ -4840,6 +4840,8 @@ def rule_index_order(repo):
                     by_def = True
                 else:
                     own_texts.add(norm(a))
+                    if not isinstance(a, ast.Name):
+                        by_def = True             # the defining expression itself is the argument
             if ip in gparams and gparams.index(ip) < len(args):
                 init_idx.add(norm(args[gparams.index(ip)]))
         scope_funcs = [ff for ff, x in ext]
@@ -4959,8 +4961,80 @@ def rule_deq(repo):
                 r.bad(c.mod, fq(c, f), cons, f"a literal nested in a struct literal is produced with {pg}="
                       f"{norm(val) if val is not None else 'True (default)'}: it queues its own record, so the next "
                       f"rtlir_tr_connection dequeues a field literal instead of the signal expression", call.lineno)
+    # which record of the queue each operation touches: a signal expression is translated bottom-up right after its own record
+    # was queued, and a connection queues the writer's record, then the reader's; so while the reader is built the queue holds
+    # two records and every amending operation must address the end where producers insert; the consumer removes from the
+    # opposite end, first in first out
+    qattrs = set()
+    for cc in lk.mro(top):
+        init = cc.methods().get('__init__')
+        for st in (ast.walk(init) if init is not None else ()):
+            if isinstance(st, ast.Assign) and isinstance(st.value, ast.Call) and norm(st.value.func) in ('deque', 'collections.deque') \
+                    and not st.value.args:
+                for t in st.targets:
+                    if isinstance(t, ast.Attribute) and isinstance(t.value, ast.Name):
+                        qattrs.add(t.attr)
+    if not qattrs:
+        raise AnalysisError("the queue of expression records (a deque created in __init__) was not found")
+    ends, sites = {}, []
+    for cc in lk.mro(top):
+        if not cc.mod.rel.startswith(YS_DIR):
+            continue
+        for mname, mf in sorted(cc.methods().items()):
+            for x in ast.walk(mf):
+                if isinstance(x, ast.Call) and isinstance(x.func, ast.Attribute) and isinstance(x.func.value, ast.Attribute) \
+                        and x.func.value.attr in qattrs and isinstance(x.func.value.value, ast.Name):
+                    op = x.func.attr
+                    if op in ('append', 'appendleft'):
+                        ends.setdefault('produce', []).append((cc, mf, x, 1 if op == 'append' else 0))
+                    elif op in ('pop', 'popleft'):
+                        ends.setdefault('consume', []).append((cc, mf, x, 1 if op == 'pop' else 0))
+                    elif op in ('clear',):
+                        pass
+                    else:
+                        raise AnalysisError(f"{fq(cc, mf)}: queue operation outside the abstract domain: {norm(x)[:60]}")
+                if isinstance(x, ast.Subscript) and isinstance(x.value, ast.Attribute) and x.value.attr in qattrs \
+                        and isinstance(x.value.value, ast.Name):
+                    sites.append((cc, mf, x))
+    prod_ends = {e_ for _, _, _, e_ in ends.get('produce', [])}
+    if len(prod_ends) != 1:
+        raise AnalysisError("records are queued at both ends (or nowhere): the queue discipline is outside the abstract domain")
+    pend = prod_ends.pop()
+    for cc, mf, x, e_ in ends.get('consume', []):
+        n += 1
+        cons = f"{mf.name}: {norm(x)}"
+        if e_ == pend:
+            r.bad(cc.mod, fq(cc, mf), cons, "a record is removed from the end where records are inserted: a connection would take "
+                  "the reader's record first and pair it with the writer's text", x.lineno)
+        else:
+            r.ok(cc.mod, fq(cc, mf), cons)
+    qn = next(iter(qattrs))
+    seen_sites = set()
+    for cc, mf, x in sites:
+        key = (fq(cc, mf), norm(x))
+        if key in seen_sites:
+            continue
+        seen_sites.add(key)
+        n += 1
+        where = []
+        for qlen in (1, 2, 3):
+            ok_, k_ = try_ev(x.slice, {f"len({norm(x.value)})": qlen})
+            if not ok_ or not isinstance(k_, int) or isinstance(k_, bool) or not -qlen <= k_ < qlen:
+                where = None
+                break
+            where.append(k_ % qlen)
+        cons = f"{mf.name}: amends {norm(x)}"
+        want = [q_ - 1 if pend == 1 else 0 for q_ in (1, 2, 3)]
+        if where is None:
+            r.bad(cc.mod, fq(cc, mf), cons, "the record that is amended cannot be determined (index outside the abstract domain)", x.lineno)
+        elif where != want:
+            r.bad(cc.mod, fq(cc, mf), cons, f"with 1 / 2 / 3 records queued this addresses record {where} (0 = oldest), the record of the "
+                  f"expression under construction is {want}: while the READER of a connection is translated the queue also holds "
+                  f"the writer's record, so the index / attribute is added to the writer's text and is missing from the reader's", x.lineno)
+        else:
+            r.ok(cc.mod, fq(cc, mf), cons)
     r.evaluations = n
-    r.require_floor(5)
+    r.require_floor(5 + 2 + 12)
     return r
 
 
@@ -5054,7 +5128,25 @@ def rule_wire_forms(repo):
                           lp.lineno)
             # filters: `if <own dims> or <record dims/index> or 'present' in rec`
             for iff in [x for x in body_nodes if isinstance(x, ast.If)]:
-                disj = iff.test.values if isinstance(iff.test, ast.BoolOp) and isinstance(iff.test.op, ast.Or) else [iff.test]
+                test = iff.test
+                # `if not ( A or B or marked ): continue` / `if not A and not B and 'mark' not in rec: continue` guard the rest
+                # of the iteration exactly like `if A or B or marked:` guards its body
+                if not iff.orelse and iff.body and all(isinstance(st, ast.Continue) for st in iff.body):
+                    if isinstance(test, ast.UnaryOp) and isinstance(test.op, ast.Not):
+                        test = test.operand
+                    elif isinstance(test, ast.BoolOp) and isinstance(test.op, ast.And):
+                        negs = []
+                        for x in test.values:
+                            if isinstance(x, ast.UnaryOp) and isinstance(x.op, ast.Not):
+                                negs.append(x.operand)
+                            elif isinstance(x, ast.Compare) and len(x.ops) == 1 and isinstance(x.ops[0], ast.NotIn):
+                                negs.append(ast.Compare(left=x.left, ops=[ast.In()], comparators=x.comparators))
+                            else:
+                                negs = None
+                                break
+                        if negs:
+                            test = ast.BoolOp(op=ast.Or(), values=negs)
+                disj = test.values if isinstance(test, ast.BoolOp) and isinstance(test.op, ast.Or) else [test]
                 if not any(is_mark_test(x, rec) for x in disj) and not any(
                         isinstance(x, ast.Name) and norm(reaching_value(x.id, iff) or x) in (f"{rec}['n_dim']", f"{rec}['idx']") for x in disj):
                     continue
@@ -5800,6 +5892,146 @@ def rule_dims_order(repo, backend):
                           f"name[i_ifc][i_port])", node.lineno)
                 else:
                     r.ok(c.mod, fq(c, f), cons)
+    # recursion into a nested interface: the declaration produced one nesting level deeper carries every dimension the level
+    # above carries (enclosing interface array, then the nested interface's own array) followed by its own
+    n_rec = 0
+    record_hooks = set()
+    for name, (c, f) in lk.effective_methods(top).items():
+        rets = [x for x in walk_no_nested(f) if isinstance(x, ast.Return)]
+        if name.startswith('rtlir_tr_') and rets and all(isinstance(x.value, ast.Dict) and any(isinstance(k_, ast.Constant) and k_.value == 'unpacked_type'
+                                                                                               for k_ in x.value.keys) for x in rets):
+            record_hooks.add(name)
+    for name, (c, f) in sorted(lk.effective_methods(top).items()):
+        if not c.mod.rel.startswith(SV_DIR) or not name.startswith('rtlir_tr_'):
+            continue
+        params = [a.arg for a in f.args.args]
+        rec_calls = [x for x in walk_no_nested(f) if isinstance(x, ast.Call) and isinstance(x.func, ast.Attribute)
+                     and x.func.attr == name and isinstance(x.func.value, ast.Name) and x.func.value.id == params[0]]
+        aps = [p_ for p_ in params if any(isinstance(x, ast.Subscript) and isinstance(x.value, ast.Name) and x.value.id == p_
+                                          and isinstance(x.slice, ast.Constant) and x.slice.value == 'unpacked_type' for x in ast.walk(f))]
+        leafs = []
+        for ret in [x for x in walk_no_nested(f) if isinstance(x, ast.Return) and x.value is not None]:
+            for d in ast.walk(ret.value):
+                if isinstance(d, ast.Dict):
+                    for k_, v_ in zip(d.keys, d.values):
+                        if isinstance(k_, ast.Constant) and k_.value == 'unpacked_type':
+                            leafs.append(v_)
+        if not rec_calls or not aps:
+            continue
+        assigned = {}
+        for st in walk_no_nested(f):
+            if isinstance(st, ast.Assign) and len(st.targets) == 1 and isinstance(st.targets[0], ast.Name):
+                assigned.setdefault(st.targets[0].id, []).append(st.value)
+        # what the recursion hands over for a parameter that is read as a translated array type (p['unpacked_type']) is a
+        # translated array type too: a record built here, the parameter itself, or the result of a hook that returns such records
+        for call in rec_calls:
+            if call.keywords or any(isinstance(a, ast.Starred) for a in call.args) or len(call.args) != len(params) - 1:
+                continue
+            for p_, a in zip(params[1:], call.args):
+                if p_ not in aps:
+                    continue
+                vals = assigned.get(a.id, [a]) if isinstance(a, ast.Name) and a.id not in params else [a]
+                n += 1
+                n_rec += 1
+                raw = []
+                for v_ in vals:
+                    okv = (isinstance(v_, ast.Dict) or (isinstance(v_, ast.Constant) and v_.value is None and
+                                                         any(isinstance(x, ast.Compare) and isinstance(x.left, ast.Name) and x.left.id == p_
+                                                             and any(isinstance(o_, (ast.Is, ast.IsNot)) for o_ in x.ops) for x in ast.walk(f)))
+                           or (isinstance(v_, ast.Name) and v_.id in aps)
+                           or (isinstance(v_, ast.Call) and isinstance(v_.func, ast.Attribute) and v_.func.attr in record_hooks))
+                    if not okv:
+                        raw.append(v_)
+                cons = f"{name}: recursion passes `{norm(a)[:50]}` for {p_}"
+                if raw:
+                    # can the callee consume the raw value without raising?  If every use of the parameter subscripts it, calls
+                    # a dict method on it, tests it against None or hands it to the recursion again, an RTLIR type object
+                    # raises before any text is produced: the design is refused, not mistranslated
+                    consumable = []
+                    for u in walk_no_nested(f):
+                        if not (isinstance(u, ast.Name) and u.id == p_ and isinstance(u.ctx, ast.Load)):
+                            continue
+                        pu = parent(u)
+                        if isinstance(pu, ast.Subscript) and pu.value is u:
+                            continue
+                        if isinstance(pu, ast.Attribute) and pu.value is u and pu.attr in ('get', 'items', 'keys', 'values', 'update',
+                                                                                          'setdefault', 'pop', 'copy', '__getitem__'):
+                            continue
+                        if isinstance(pu, ast.Compare) and any(isinstance(o_, (ast.Is, ast.IsNot)) for o_ in pu.ops):
+                            continue
+                        if isinstance(pu, ast.Call) and pu in rec_calls and u in pu.args and params[1:][pu.args.index(u)] == p_:
+                            continue
+                        consumable.append(u)
+                    if consumable:
+                        r.bad(c.mod, fq(c, f), cons, f"{p_} is read as a translated array type ({p_}['unpacked_type']) but the recursion "
+                              f"into a nested interface passes `{norm(raw[0])[:60]}`, which is not one (an RTLIR type object / "
+                              f"untranslated value), and `{norm(parent(consumable[0]))[:60]}` consumes it without raising: the ports of "
+                              f"an array inside a nested interface are declared with text derived from the wrong object", call.lineno)
+                    else:
+                        r.ok(c.mod, fq(c, f), cons, nontrivial=False, note="refusal, not a violation")
+                        r.observations.append(f"{fq(c, f)}: the recursion into a nested interface passes `{norm(raw[0])[:40]}` (an "
+                                              f"untranslated RTLIR type) for {p_}; every use of {p_} subscripts it, so an array of "
+                                              f"ports inside a nested interface makes the translation raise TypeError before any text "
+                                              f"is emitted -- the design is refused, not mistranslated "
+                                              f"(triage/c03_nested_interface_port_array.py)")
+                else:
+                    r.ok(c.mod, fq(c, f), cons)
+        if not leafs:
+            continue
+        once = {k_: v_[0] for k_, v_ in assigned.items() if len(v_) == 1 and k_ not in params}
+
+        class Lvl(_Interp):
+            def ev_Name(self, e):
+                if e.id not in self.env and e.id in once and e.id not in getattr(self, '_busy', ()):
+                    self._busy = set(getattr(self, '_busy', ())) | {e.id}
+                    try:
+                        return self.ev(once[e.id])
+                    finally:
+                        self._busy.discard(e.id)
+                return super().ev_Name(e)
+
+        def rec(tok, k_):
+            return {'unpacked_type': tok, 'n_dim': [k_], 'def': ''}
+        env0 = {p_: rec(f"<{p_}>", i + 2) for i, p_ in enumerate(aps)}
+        for call in rec_calls:
+            if call.keywords or any(isinstance(a, ast.Starred) for a in call.args) or len(call.args) != len(params) - 1:
+                continue
+            env1, fresh = {}, []
+            for p_, a in zip(params[1:], call.args):
+                if p_ not in aps:
+                    continue
+                try:
+                    v_ = Lvl({}, env0).ev(a)
+                    if not (isinstance(v_, dict) and isinstance(v_.get('unpacked_type'), str)):
+                        raise AnalysisError("not an array-type record")
+                    env1[p_] = v_
+                except (AnalysisError, Raised, TypeError, KeyError, IndexError):
+                    env1[p_] = rec("<new>", 9)
+                    fresh.append(p_)
+            if len(fresh) != 1:
+                continue
+            for leaf in leafs:
+                try:
+                    s0 = Lvl({}, env0).ev(leaf)
+                    s1 = Lvl({}, env1).ev(leaf)
+                except (AnalysisError, Raised, TypeError, KeyError, IndexError):
+                    continue
+                if not isinstance(s0, str) or not isinstance(s1, str):
+                    continue
+                n += 1
+                n_rec += 1
+                # the level-0 text ends with the dimensions of the entity that is the nested interface one level deeper
+                want = s0 + "<new>"
+                cons = f"{name}: nested interface, recursion passes ({', '.join(norm(a)[:40] for p_, a in zip(params[1:], call.args) if p_ in aps)})"
+                if s1 == want:
+                    r.ok(c.mod, fq(c, f), cons)
+                else:
+                    r.bad(c.mod, fq(c, f), cons, f"a port of this level is declared with the dimensions {s0}; a port <new> of the "
+                          f"interface nested one level deeper is declared with {s1 or 'none'} instead of {want}: a dimension of an "
+                          f"enclosing interface array is lost (or misplaced) in the recursion, so the parent declares e.g. "
+                          f"st__bus__lane__msg without the [0:1] of the lane array and still indexes it", call.lineno)
+    if n_rec == 0:
+        raise AnalysisError("R-tr-dims-order: the recursion of the sub-component interface port declaration into nested interfaces was not found")
     # the accesses: pending (interface / component) indices are emitted before the port's own index
     vis = tov_visitor(repo, 'sv')
     for cc, ff in lk.all_defs(vis, 'visit_Index'):
@@ -5810,7 +6042,7 @@ def rule_dims_order(repo, backend):
                     n += 1
                     r.ok(cc.mod, fq(cc, ff), "access template <name>{pending indices}[own index]", nontrivial=False)
     r.evaluations = n
-    r.require_floor(5)
+    r.require_floor(9)
     return r
 
 
@@ -6137,4 +6369,527 @@ def rule_block_state(repo, backend):
         raise AnalysisError("R-tr-block-state: the embedded example (closure created in __init__, filled in enter) was not flagged")
     r.evaluations = n
     r.require_floor(3)
+    return r
+
+
+# ===========================================================================
+# concrete interpretation of small helpers on abstract objects
+# ===========================================================================
+class AObjAttributeError(AnalysisError):
+    """the analysed code reads an attribute the abstract object does not have (python: AttributeError)"""
+
+
+class AObj:
+    """an abstract object: `kind` answers isinstance, `members` holds attribute values; a callable member is a method"""
+    def __init__(self, kind, **members):
+        self.kind, self.members = kind, members
+
+    def __repr__(self):
+        return f"<{self.kind}>"
+
+
+def _type_names(e):
+    xs = e.elts if isinstance(e, (ast.Tuple, ast.List)) else [e]
+    out = []
+    for x in xs:
+        if isinstance(x, ast.Attribute):
+            out.append(x.attr)
+        elif isinstance(x, ast.Name):
+            out.append(x.id)
+        else:
+            raise AnalysisError(f"type outside the abstract domain: {norm(x)}")
+    return out
+
+
+_PY_TYPES = {'int': int, 'str': str, 'list': list, 'tuple': tuple, 'dict': dict, 'bool': bool}
+
+
+class _Interp(_Ev):
+    """expressions and straight-line / if / loop statements evaluated on concrete python values and AObj objects.
+    `resolve(interp, call)` may return (fdef, env) for a call of another function of the analysed code"""
+    MAX_STEPS = 4000
+
+    def __init__(self, leaves=None, env=None, resolve=None, depth=0, funcs=None):
+        super().__init__(leaves or {}, funcs)
+        self.env = dict(env or {})
+        self.resolve, self.depth, self.steps = resolve, depth, 0
+
+    def ev_Attribute(self, e):
+        key = norm(e)
+        if key in self.leaves:
+            return self.leaves[key]
+        base = self.ev(e.value)
+        if isinstance(base, AObj):
+            if e.attr in base.members and not callable(base.members[e.attr]):
+                return base.members[e.attr]
+            raise AObjAttributeError(f"attribute outside the abstract object {base}: {e.attr}")
+        raise AnalysisError(f"attribute outside the abstract domain: {key}")
+
+    def ev_List(self, e):
+        return [self.ev(x) for x in e.elts]
+
+    def ev_Dict(self, e):
+        return {self.ev(k): self.ev(v) for k, v in zip(e.keys, e.values)}
+
+    def ev_Subscript(self, e):
+        v = self.ev(e.value)
+        if isinstance(e.slice, ast.Slice):
+            lo = None if e.slice.lower is None else self.ev(e.slice.lower)
+            hi = None if e.slice.upper is None else self.ev(e.slice.upper)
+            st = None if e.slice.step is None else self.ev(e.slice.step)
+            return v[lo:hi:st]
+        return v[self.ev(e.slice)]
+
+    def _comp(self, elt, gens, out):
+        if not gens:
+            out.append(self.ev(elt))
+            return
+        g = gens[0]
+        for item in list(self.ev(g.iter)):
+            self._bind(g.target, item)
+            if all(self.ev(c) for c in g.ifs):
+                self._comp(elt, gens[1:], out)
+
+    def ev_ListComp(self, e):
+        saved = dict(self.env)
+        out = []
+        self._comp(e.elt, e.generators, out)
+        self.env = saved
+        return out
+
+    ev_GeneratorExp = ev_ListComp
+
+    def ev_Call(self, e):
+        name = norm(e.func)
+        if not e.keywords:
+            if name in ('all', 'any', 'sum', 'list', 'tuple', 'len', 'sorted', 'reversed', 'set', 'max', 'min') and len(e.args) == 1:
+                v = self.ev(e.args[0])
+                f = {'all': all, 'any': any, 'sum': sum, 'list': list, 'tuple': tuple, 'len': len, 'sorted': sorted,
+                     'reversed': lambda x: list(reversed(x)), 'set': set, 'max': max, 'min': min}[name]
+                return f(v)
+            if name in ('zip', 'range', 'enumerate'):
+                vals = [self.ev(a) for a in e.args]
+                return list({'zip': zip, 'range': range, 'enumerate': enumerate}[name](*vals))
+            if name == 'isinstance' and len(e.args) == 2:
+                v = self.ev(e.args[0])
+                names = _type_names(e.args[1])
+                if isinstance(v, AObj):
+                    return v.kind in names
+                if all(n in _PY_TYPES for n in names):
+                    return isinstance(v, tuple(_PY_TYPES[n] for n in names))
+                return False
+            if isinstance(e.func, ast.Attribute) and name not in self.leaves:
+                try:
+                    base = self.ev(e.func.value)
+                except AnalysisError:
+                    base = None
+                if isinstance(base, AObj) and e.func.attr in base.members and callable(base.members[e.func.attr]):
+                    return base.members[e.func.attr](*[self.ev(a) for a in e.args])
+                if isinstance(base, dict) and e.func.attr in ('items', 'keys', 'values', 'get'):
+                    return getattr(base, e.func.attr)(*[self.ev(a) for a in e.args]) if e.func.attr == 'get' else list(getattr(base, e.func.attr)())
+        if self.resolve is not None and self.depth < 4:
+            res = self.resolve(self, e)
+            if res is not None:
+                fdef, env = res
+                sub = type(self)(self.leaves, env, self.resolve, self.depth + 1, self.funcs)
+                try:
+                    sub.run(fdef.body)
+                except _HelperReturn as r_:
+                    return r_.value
+                return None
+        return super().ev_Call(e)
+
+    run = _StmtEv.run
+
+    def _bind(self, target, val):
+        if isinstance(target, ast.Name):
+            self.env[target.id] = val
+        elif isinstance(target, (ast.Tuple, ast.List)) and isinstance(val, (tuple, list)) and len(val) == len(target.elts):
+            for t, v in zip(target.elts, val):
+                self._bind(t, v)
+        else:
+            raise AnalysisError(f"assignment target outside the abstract domain: {norm(target)}")
+
+    @property
+    def bound(self):
+        return self.env
+
+
+def _method_resolver(mod, clsname):
+    """calls `<obj>.name(args)` / `name(args)` of methods of one class (and its bases in the same module) on AObj receivers"""
+    def find(name, seen=()):
+        todo = [clsname]
+        while todo:
+            cn = todo.pop(0)
+            if cn in seen or cn not in mod.classes:
+                continue
+            ms = mod.methods(cn)
+            if name in ms:
+                return ms[name]
+            todo.extend(b.id for b in mod.classes[cn].bases if isinstance(b, ast.Name))
+        return None
+
+    def resolve(interp, call):
+        if not isinstance(call.func, ast.Attribute):
+            return None
+        try:
+            recv = interp.ev(call.func.value)
+        except AnalysisError:
+            return None
+        if not isinstance(recv, AObj) or recv.kind != clsname or call.func.attr in recv.members:
+            return None
+        f = find(call.func.attr)
+        if f is None or call.keywords or len(call.args) != len(f.args.args) - 1:
+            return None
+        env = {f.args.args[0].arg: recv}
+        for a, x in zip(f.args.args[1:], call.args):
+            env[a.arg] = interp.ev(x)
+        return f, env
+    return resolve
+
+
+def _eq_verdict(mod, clsname, a, b):
+    eq = mod.methods(clsname).get('__eq__')
+    if eq is None:
+        raise AnalysisError(f"anchor vanished: {clsname}.__eq__")
+    ps = [x.arg for x in eq.args.args]
+    it = _Interp({}, {ps[0]: a, ps[1]: b}, _method_resolver(mod, clsname))
+    try:
+        it.run(eq.body)
+    except _HelperReturn as r_:
+        return bool(r_.value)
+    return None
+
+
+def rule_rtype_eq(repo, backend):
+    r = RuleResult('R-tr-rtype-eq', f"[{backend}] the elements of an array share ONE declaration taken from element 0, and "
+                   f"_handle_Array admits an array when the RTLIR types of its elements compare equal: equality of the RTLIR types "
+                   f"must hold only for elements that are declared identically (same port list / data type / direction / dimensions)")
+    m = repo.mod(RTYPE)
+    n = 0
+    T8, T16 = AObj('Vector', nbits=8), 'Vector16'
+    pa, pa16, pb, pc = ('a', 'Port8in'), ('a', 'Port16in'), ('b', 'Port8in'), ('c', 'Port8out')
+
+    def comp(ports):
+        return AObj('Component', get_ports_packed=lambda: list(ports), name='C', params=[])
+
+    cases = [("identical port lists", [pa, pb], [pa, pb], True),
+             ("one port of another width", [pa, pb], [pa16, pb], False),
+             ("same number of ports, another name", [pa, pb], [pa, pc], False),
+             ("the other component has one port more", [pa], [pa, pb], False),
+             ("the other component has one port less", [pa, pb], [pa], False),
+             ("no ports at all", [], [], True)]
+    f = m.methods('Component').get('__eq__') if 'Component' in m.classes else None
+    if f is None:
+        raise AnalysisError("anchor vanished: RTLIRType.Component.__eq__")
+    bad = None
+    for what, u, v, want in cases:
+        n += 1
+        try:
+            got = _eq_verdict(m, 'Component', comp(u), comp(v))
+        except (Raised, TypeError, ValueError, KeyError, IndexError) as e:
+            raise AnalysisError(f"Component.__eq__ outside the abstract domain: {type(e).__name__}")
+        if got is not want and bad is None:
+            bad = (what, u, v, got, want)
+    cons = "Component == Component over port lists (equal / width / name / longer / shorter / empty)"
+    if bad:
+        what, u, v, got, want = bad
+        r.bad(m, 'Component.__eq__', cons, f"{what}: components with ports {[p[0] + ':' + p[1] for p in u]} and "
+              f"{[p[0] + ':' + p[1] for p in v]} compare {'equal' if got else 'unequal'}, they are declared "
+              f"{'identically' if want else 'differently'}: a list like [Reg(8), Reg(16)] is admitted as an array of components and "
+              f"every element's ports get the wires of element 0", f.lineno)
+    else:
+        r.ok(m, 'Component.__eq__', cons)
+    n += 1
+    try:
+        got = _eq_verdict(m, 'Component', comp([pa]), AObj('Port', dtype='Vector8', direction='input'))
+    except (Raised, TypeError, ValueError, KeyError, IndexError, AnalysisError):
+        got = None
+    if got is False:
+        r.ok(m, 'Component.__eq__', "Component == Port")
+    else:
+        r.bad(m, 'Component.__eq__', "Component == Port", "a component compares equal to an object of another RTLIR type (or the "
+              "comparison is not decided)", f.lineno)
+    # interface views: the ports of an interface array are declared once, from element 0
+    if 'InterfaceView' not in m.classes or '__eq__' not in m.methods('InterfaceView'):
+        raise AnalysisError("anchor vanished: RTLIRType.InterfaceView.__eq__")
+    fe = m.methods('InterfaceView')['__eq__']
+
+    def view(name, props, args=()):
+        items = sorted(props.items())
+        return AObj('InterfaceView', name=name, properties=dict(props), args=list(args), kwargs={}, unpacked=False, obj=None, cls=name,
+                    get_all_properties_packed=lambda: list(items), get_all_ports_packed=lambda: list(items),
+                    get_all_properties=lambda: list(items), get_all_ports=lambda: list(items), get_name=lambda: name,
+                    get_args=lambda: (list(args), {}), get_class=lambda: name)
+    icases = [("identical interfaces", view('Ifc', {'msg': 'Port8in', 'val': 'Port1in'}, ['Bits8']),
+               view('Ifc', {'msg': 'Port8in', 'val': 'Port1in'}, ['Bits8']), True),
+              ("the same interface class with another parameter (msg is 16 bits wide)",
+               view('Ifc', {'msg': 'Port8in', 'val': 'Port1in'}, ['Bits8']), view('Ifc', {'msg': 'Port16in', 'val': 'Port1in'}, ['Bits16']), False),
+              ("the same interface class with one port more", view('Ifc', {'msg': 'Port8in'}, [1]),
+               view('Ifc', {'msg': 'Port8in', 'val': 'Port1in'}, [2]), False),
+              ("another interface class", view('Ifc', {'msg': 'Port8in'}, ['Bits8']), view('Other', {'msg': 'Port8in'}, ['Bits8']), False)]
+    probs = []
+    for what, a, b, want in icases:
+        n += 1
+        try:
+            got = _eq_verdict(m, 'InterfaceView', a, b)
+        except (Raised, TypeError, ValueError, KeyError, IndexError) as e:
+            raise AnalysisError(f"InterfaceView.__eq__ outside the abstract domain: {type(e).__name__}")
+        if got is not want:
+            probs.append(f"{what}: the views compare {'equal' if got else 'unequal'}")
+    cons = "InterfaceView == InterfaceView over (class name, ports)"
+    if probs:
+        r.bad(m, 'InterfaceView.__eq__', cons, "; ".join(probs) + ": a list like [Ifc(Bits8), Ifc(Bits16)] is admitted as an array "
+              "of interfaces and the ports of every element are declared with the types of element 0 (x[1].msg becomes 8 bits wide)",
+              fe.lineno)
+    else:
+        r.ok(m, 'InterfaceView.__eq__', cons)
+    # signal types: every member the declaration is built from takes part in the comparison
+    spec = {'Port': dict(dtype='Vector8', direction='input', unpacked=False), 'Wire': dict(dtype='Vector8', unpacked=False),
+            'Const': dict(dtype='Vector8', unpacked=False, obj=None),
+            'Array': dict(dim_sizes=[2, 3], sub_type='Port8in', obj=None, unpacked=True)}
+    vary = {'Port': dict(dtype='Vector16', direction='output'), 'Wire': dict(dtype='Vector16'), 'Const': dict(dtype='Vector16'),
+            'Array': dict(dim_sizes=[2, 4], sub_type='Port16in')}
+    for cn in sorted(spec):
+        if cn not in m.classes or '__eq__' not in m.methods(cn):
+            raise AnalysisError(f"anchor vanished: RTLIRType.{cn}.__eq__")
+        fe = m.methods(cn)['__eq__']
+        probs = []
+        try:
+            n += 1
+            if _eq_verdict(m, cn, AObj(cn, **spec[cn]), AObj(cn, **spec[cn])) is not True:
+                probs.append("two identical types compare unequal")
+            for k_, alt in sorted(vary[cn].items()):
+                n += 1
+                other = dict(spec[cn]); other[k_] = alt
+                if _eq_verdict(m, cn, AObj(cn, **spec[cn]), AObj(cn, **other)) is not False:
+                    probs.append(f"types that differ in `{k_}` ({spec[cn][k_]} / {alt}) compare equal")
+            n += 1
+            try:
+                if _eq_verdict(m, cn, AObj(cn, **spec[cn]), AObj('NoneType')) is not False:
+                    probs.append("compares equal to an object of another RTLIR type")
+            except AObjAttributeError:
+                probs.append("the comparison with an object of another RTLIR type reads a member only this type has (AttributeError) "
+                             "instead of answering False")
+        except (Raised, TypeError, ValueError, KeyError, IndexError) as e:
+            raise AnalysisError(f"{cn}.__eq__ outside the abstract domain: {type(e).__name__}")
+        cons = f"{cn} == {cn}: sensitive to {sorted(vary[cn])}"
+        if probs:
+            r.bad(m, f"{cn}.__eq__", cons, "; ".join(probs) + ": array elements of different declarations would share the declaration "
+                  "of element 0", fe.lineno)
+        else:
+            r.ok(m, f"{cn}.__eq__", cons)
+    r.evaluations = n
+    r.require_floor(7)
+    return r
+
+
+# ---------------------------------------------------------------------------
+SV_UTIL = 'pymtl3/passes/backends/verilog/util/utility.py'
+
+
+def _iterates_ports(it):
+    """the iterated expression enumerates the component's packed ports (possibly filtered / wrapped)"""
+    return any(isinstance(x, ast.Call) and isinstance(x.func, ast.Attribute) and x.func.attr == 'get_ports_packed' for x in ast.walk(it))
+
+
+def rule_port_skip(repo, backend):
+    r = RuleResult('R-tr-port-skip', f"[{backend}] gen_mapped_ports( m, map, has_clk, has_reset ) leaves out exactly the implicit "
+                   f"ports the caller declined: `clk` iff not has_clk, `reset` iff not has_reset; every other port and the other "
+                   f"implicit port are kept (evaluated over the 4 flag combinations x {{clk, reset, another port}})")
+    rel = SV_UTIL if backend == 'sv' else YS_UTIL
+    m = repo.mod(rel)
+    f = m.functions.get('gen_mapped_ports')
+    if f is None:
+        raise AnalysisError(f"anchor vanished: gen_mapped_ports in {rel}")
+    params = [a.arg for a in f.args.args]
+    flags = [p_ for p_ in params if p_ in ('has_clk', 'has_reset')]
+    if len(flags) != 2:
+        raise AnalysisError(f"gen_mapped_ports in {rel}: the has_clk / has_reset parameters were not found")
+    loops = [x for x in walk_no_nested(f) if isinstance(x, ast.For) and _iterates_ports(x.iter)]
+    comps = [x for x in walk_no_nested(f) if isinstance(x, (ast.ListComp, ast.GeneratorExp)) and
+             any(_iterates_ports(g.iter) for g in x.generators) and not isinstance(parent(x), ast.For)]
+    if not loops and not comps:
+        raise AnalysisError(f"gen_mapped_ports in {rel}: the walk over get_ports_packed() was not found")
+    pre = {}
+    for st in f.body:
+        if isinstance(st, ast.Assign) and len(st.targets) == 1 and isinstance(st.targets[0], ast.Name):
+            pre[st.targets[0].id] = st.value
+    n = 0
+
+    def name_var(target):
+        if isinstance(target, (ast.Tuple, ast.List)) and target.elts and isinstance(target.elts[0], ast.Name):
+            return target.elts[0].id
+        raise AnalysisError(f"gen_mapped_ports in {rel}: the loop over the ports does not unpack (name, port)")
+
+    class Skip(_Interp):
+        def ev_Name(self, e):
+            if e.id not in self.env and e.id in pre and e.id not in getattr(self, '_busy', ()):
+                self._busy = set(getattr(self, '_busy', ())) | {e.id}
+                try:
+                    return self.ev(pre[e.id])
+                finally:
+                    self._busy.discard(e.id)
+            return super().ev_Name(e)
+
+    def kept(it, body, env):
+        """None: not decidable (the port is consumed); True / False: kept / skipped"""
+        for st in body:
+            if isinstance(st, ast.Pass) or (isinstance(st, ast.Expr) and isinstance(st.value, ast.Constant)):
+                continue
+            if isinstance(st, ast.Continue):
+                return False
+            if isinstance(st, ast.If):
+                try:
+                    t = it.ev(st.test)
+                except (AnalysisError, Raised, TypeError, KeyError):
+                    return True
+                res = kept(it, st.body if t else st.orelse, env)
+                if res is not None:
+                    return res
+                continue
+            if isinstance(st, ast.Assign) and len(st.targets) == 1 and isinstance(st.targets[0], ast.Name):
+                try:
+                    it.env[st.targets[0].id] = it.ev(st.value)
+                    continue
+                except (AnalysisError, Raised, TypeError, KeyError):
+                    return True
+            return True
+        return None
+
+    sites = [(lp, name_var(lp.target), None) for lp in loops] + \
+            [(cp, name_var([g for g in cp.generators if _iterates_ports(g.iter)][0].target), 'comp') for cp in comps]
+    for node, nv, kind in sites:
+        bad = []
+        for hc in (True, False):
+            for hr in (True, False):
+                for pname in ('clk', 'reset', 'in_'):
+                    n += 1
+                    env = {flags[0]: hc if flags[0] == 'has_clk' else hr, flags[1]: hr if flags[1] == 'has_reset' else hc, nv: pname}
+                    it = Skip({}, env)
+                    if kind == 'comp':
+                        g = [g for g in node.generators if _iterates_ports(g.iter)][0]
+                        try:
+                            res = all(it.ev(c) for c in g.ifs)
+                        except (AnalysisError, Raised, TypeError, KeyError) as e:
+                            raise AnalysisError(f"gen_mapped_ports in {rel}: port filter outside the abstract domain: {norm(node)[:80]}")
+                    else:
+                        res = True
+                        src = node.iter
+                        # a filtering comprehension as the iterated expression
+                        if isinstance(src, (ast.ListComp, ast.GeneratorExp)):
+                            g = src.generators[0]
+                            it.env[name_var(g.target)] = pname
+                            try:
+                                res = all(it.ev(c) for c in g.ifs)
+                            except (AnalysisError, Raised, TypeError, KeyError):
+                                raise AnalysisError(f"gen_mapped_ports in {rel}: port filter outside the abstract domain: {norm(src)[:80]}")
+                        if res:
+                            k_ = kept(it, node.body, env)
+                            res = True if k_ is None else k_
+                    want = not ((pname == 'clk' and not hc) or (pname == 'reset' and not hr))
+                    if res != want:
+                        bad.append((hc, hr, pname, res))
+        cons = f"gen_mapped_ports: ports walked by `{norm(node.iter if kind is None else node)[:70]}`"
+        if bad:
+            hc, hr, pname, res = bad[0]
+            r.bad(m, 'gen_mapped_ports', cons, f"with has_clk={hc}, has_reset={hr} the port `{pname}` is {'kept' if res else 'left out'} "
+                  f"({len(bad)} of 12 cases differ): a port is left out iff it is clk and not has_clk, or reset and not has_reset "
+                  f"(e.g. an imported module without a clock still has its reset port)", node.lineno)
+        else:
+            r.ok(m, 'gen_mapped_ports', cons)
+    r.evaluations = n
+    r.require_floor(1)
+    return r
+
+
+# ---------------------------------------------------------------------------
+_ELEM_ACCESSORS = {'get_sub_dtype': 'elem', 'get_sub_type': 'elem', 'get_next_dim_type': 'next'}
+
+
+def _array_parts(e):
+    """(receiver text, role) if e is <X>.get_dim_sizes() / <X>.get_sub_dtype() / <X>.get_sub_type() / <X>.get_next_dim_type()"""
+    if isinstance(e, ast.Call) and isinstance(e.func, ast.Attribute) and not e.args and not e.keywords:
+        if e.func.attr == 'get_dim_sizes':
+            return norm(e.func.value), 'dims'
+        if e.func.attr in _ELEM_ACCESSORS:
+            return norm(e.func.value), _ELEM_ACCESSORS[e.func.attr]
+    return None
+
+
+def rule_dims_elem(repo, backend):
+    r = RuleResult('R-tr-dims-elem', f"[{backend}] where a generator takes an array (packed or unpacked) apart into its list of "
+                   f"dimensions and a type that are handed on TOGETHER, the two describe the same array: dimensions handed on ++ "
+                   f"dimensions still inside the type = dimensions of the array (evaluated on a 2-D array [2][3]; get_sub_dtype / "
+                   f"get_sub_type is the element, get_next_dim_type peels one dimension only)")
+    DIMS = [2, 3]
+    n = 0
+    for rel in backend_files(backend):
+        try:
+            m = repo.mod(rel)
+        except AnalysisError:
+            continue
+        for q, f in all_functions(m):
+            if not any(isinstance(x, ast.Attribute) and x.attr == 'get_dim_sizes' for x in ast.walk(f)):
+                continue
+            try:
+                ex, outs = sym_run(f, rename=False)
+            except AnalysisError:
+                continue
+            exprs = []
+            for o in outs:
+                if o.value is not None:
+                    exprs.append(o.value)
+                exprs.extend(c_ for c_, _ in o.calls)
+                exprs.extend(val for t, op, val, cs in o.stores)
+                exprs.extend(v for v in o.env.values())
+            seen = set()
+            for top_e in exprs:
+                for node in ast.walk(top_e):
+                    if isinstance(node, ast.Call):
+                        group = list(node.args) + [k.value for k in node.keywords]
+                    elif isinstance(node, (ast.Tuple, ast.List)):
+                        group = list(node.elts)
+                    elif isinstance(node, ast.Dict):
+                        group = list(node.values)
+                    else:
+                        continue
+                    for a in group:
+                        # a dimension list built from the complete X.get_dim_sizes()
+                        recvs = {p_[0] for p_ in (_array_parts(x) for x in ast.walk(a)) if p_ and p_[1] == 'dims'}
+                        if len(recvs) != 1 or _array_parts(a) is None and not isinstance(a, ast.BinOp):
+                            continue
+                        X = next(iter(recvs))
+                        for b in group:
+                            if b is a:
+                                continue
+                            pb = _array_parts(b)
+                            # (the whole array handed on next to its dimensions is a descriptor, not a decomposition)
+                            role = pb[1] if pb and pb[0] == X and pb[1] != 'dims' else None
+                            if role is None:
+                                continue
+                            key = (q, norm(a), norm(b))
+                            if key in seen:
+                                continue
+                            seen.add(key)
+                            leaves = {f"{X}.get_dim_sizes()": list(DIMS)}
+                            for nm in {x.id for x in ast.walk(a) if isinstance(x, ast.Name)}:
+                                leaves.setdefault(nm, [])
+                            ok_, av = try_ev(a, leaves)
+                            if not ok_ or not isinstance(av, list):
+                                continue
+                            n += 1
+                            inner = {'elem': [], 'next': DIMS[1:]}[role]
+                            cons = f"{q}: dimensions `{norm(a)[:60]}` handed on with type `{norm(b)[:60]}`"
+                            if av + inner == DIMS:
+                                r.ok(m, q, cons)
+                            else:
+                                r.bad(m, q, cons, f"for a [2][3] array the dimensions handed on are {av} and the type handed on with "
+                                      f"them still has the dimensions {inner}: together they describe {av + inner}, not [2, 3] -- "
+                                      f"get_next_dim_type() peels only the first dimension (it equals the element type for 1-D arrays "
+                                      f"only), so the remaining dimensions are generated twice", f.lineno)
+    if n == 0:
+        raise AnalysisError("R-tr-dims-elem: no place where an array is taken apart was found")
+    r.evaluations = n
+    r.require_floor(1 if backend == 'sv' else 7)
     return r
